@@ -64,6 +64,24 @@ pub fn scenarios(prop: &str, tier: &str) -> Vec<Scenario> {
                 }
             }
         }
+        // a planner object that has LIVED BEFORE: setup, several iterations on other samples, setup again
+        // with the same problem - whatever a planner keeps beside its tree (tables indexed by node,
+        // caches, flags) must have been reset with it; the whole BFS then runs from that object
+        {
+            let w = b.world_named("subset0001", vec![b.obstacles[0].clone()]);
+            let n = b.alphabet.len() as u8;
+            let prelives: Vec<Vec<u8>> = if thorough { vec![(0..n).rev().collect(), (0..n).collect()] } else { vec![(0..n).rev().collect()] };
+            for &pk in &planners {
+                for (i, pl) in prelives.iter().enumerate() {
+                    let rms: Vec<f64> = if pk == Pk::Star { vec![1.5, 2.5] } else { vec![1.0] };
+                    for rm in rms {
+                        let mut sc = b.scenario(w.clone(), b.params(pk, 1.0, rm, 0.0), &format!("{prop}/{kit}/subset0001/{}x1/r{rm}/lived-before{i}", pk.name()));
+                        sc.prelife = pl.clone();
+                        out.push(sc);
+                    }
+                }
+            }
+        }
         // goal bias 1: every sample comes from the goal sampler (alphabet = goal samples)
         if prop == "C16" {
             for &pk in &Pk::TREES {
